@@ -457,8 +457,12 @@ def applyModifyLPRates (m : MsgModifyLPRates) (lp : LiqProt) : LiqProt := { lp w
 def applyUpdateLPParams (m : MsgUpdateLPParams) (_lp : LiqProt) : LiqProt :=
   { active := m.active, max := m.max, cur := m.max, epochLen := m.epochLen }
 
-def applyAddRewardPeriod (m : MsgAddRewardPeriod) (s : EState) : EState :=
-  { s with rew := m.periods.map (·.p) }
+/-- msg_server.go `AddRewardPeriod` (with repair F27): the accumulated block distribution survives only if
+    the period covering the previous height is unchanged in the new list -/
+def applyAddRewardPeriod (m : MsgAddRewardPeriod) (c : Ctx) (s : EState) : EState :=
+  { s with rew := m.periods.map (·.p),
+           accu := if samePeriodOpt (rewardAt (prevHeight c.height) s.rew) (rewardAt (prevHeight c.height) (m.periods.map (·.p)))
+                   then s.accu else 0 }
 
 def lppdOf (q : MsgLppdPeriod) : LppdPeriod := ⟨q.rate.getD Dec.zero, q.start, q.end_, q.mod⟩
 def applyAddLppd (m : MsgAddLppd) (s : EState) : EState :=
